@@ -109,13 +109,14 @@ theorem simd_eq_pure_real {o : Ops K} (ho : RealSimdLike o) {op : String} {m : M
     {isa : Nat} (hi : isa < 8) (hs : (op, keyAt op isa) ∉ skipped) (hty : (pureUnit op).ty = .r)
     (j : Nat) (hj : j < (pureUnit op).outs.length) (env : Nat → K)
     (hd : m ≠ .ident → DivOK o env m (pureUnit op) (simdUnit op isa) j)
-    (hq : m = .sqrtsq → SqrtOK o env m (pureUnit op) (simdUnit op isa) j) :
+    (hq : m = .sqrtsq → SqrtOK o env m (pureUnit op) (simdUnit op isa) j)
+    (hz : m = .sqrtsq → o.call1 .sqrt (o.lit 0 1) = o.lit 0 1) :
     ((pureUnit op).out j).eval o env = ((simdUnit op isa).out j).eval o env := by
   have h := pair_ok he hi hs
   simp only [pairOK, Bool.and_eq_true, List.all_eq_true, List.mem_range] at h
   have hjj := h.2 j hj
   rw [if_pos (by rw [hty]; rfl)] at hjj
-  exact outOKR_sound ho m _ _ j hjj env hd hq
+  exact outOKR_sound ho m _ _ j hjj env hd hq hz
 
 /-- **integer operations**: the same in every commutative ring with a linear order (ℤ/2^32 with the signed or the
     unsigned order) that satisfies the three bit facts of `IntSimdLike` -/
